@@ -528,7 +528,10 @@ class MarkdownNormalizer(Renderer):
         """
         link_text = element.dest
         if element.title:
-            link_text += f" {_normalize_title_quotes(element.title)}"
+            # The parser keeps a definition's title exactly as written, delimiters and escapes
+            # included ("...", '...' or (...)), so it can be emitted as is. Re-quoting it would
+            # turn 'T' into "'T'" and escape already escaped quotes again.
+            link_text += f" {element.title}"
         result = f"{self._prefix}[{element.label}]: {link_text}\n"
         self._prefix = self._second_prefix
         self._suppress_item_break = True
